@@ -183,7 +183,7 @@ func (p *PostingsList) iterator(includeFreq, includeNorm, includeLocs bool,
 	}
 
 	// "general" encoding, check if empty
-	if p.postings == nil {
+	if p.postings == nil || p.postings.IsEmpty() {
 		return rv, nil
 	}
 
